@@ -83,9 +83,15 @@ def main():
         print(name, "valid=%s" % ok, {k: v for k, v in meta.items() if k.endswith("change")})
         if ok:
             env = dict(ENV, VERIF_REPO=scratch)
+            # run from a snapshot of /verif so that edits made meanwhile do not interfere
+            snap = "/tmp/m/snap-" + name
+            shutil.rmtree(snap, ignore_errors=True)
+            run(["rsync", "-a", "--exclude", ".git", "--exclude", "seeded", "--exclude", "evidence", "--exclude", "replays", "/verif/", snap + "/"])
+            os.makedirs(snap + "/evidence", exist_ok=True)
             for c in checks:
                 t0 = time.time()
-                rc, out = run(["/verif/check", c, tier], cwd="/verif", env=env, timeout=3600)
+                rc, out = run([snap + "/check", c, tier], cwd=snap, env=env, timeout=3600)
+                out = out.replace(snap, "/verif")
                 viol = [l for l in out.splitlines() if l.startswith("VIOLATION")]
                 inc = [l for l in out.splitlines() if l.startswith("INCONCLUSIVE")]
                 verdict = {0: "missed", 1: "caught"}.get(rc, "inconclusive(exit %d)" % rc)
@@ -110,6 +116,7 @@ def main():
             meta["repo_head"] = run(["git", "-C", "/repo", "rev-parse", "--short", "HEAD"])[1].strip()
             json.dump(meta, open(dest + "/meta.json", "w"), indent=1)
     finally:
+        shutil.rmtree("/tmp/m/snap-" + name, ignore_errors=True)
         run(["git", "-C", "/repo", "worktree", "remove", "--force", scratch])
         shutil.rmtree(scratch, ignore_errors=True)
         try:
